@@ -11,8 +11,6 @@ from vlib.report import Run
 from props.C01 import ENTRIES
 
 KNOWN_LOOPS = {
-    "crate::siblings_range::DetachedSiblingsRange::rewrite_parents": "cursor loop along next_sibling (finite by J3); summarised by E2",
-    "crate::id::NodeId::remove_subtree": "pre-order walk; per-iteration obligations in C04; each iteration frees a distinct live node",
     "crate::debug_pretty_print::prepare_next_node_printing": "drives a Traverse (finite by C09/J3)",
     "<crate::debug_pretty_print::DebugPrettyPrint<'_, T> as core::fmt::Display>::fmt": "drives prepare_next_node_printing",
     "<crate::debug_pretty_print::DebugPrettyPrint<'_, T> as core::fmt::Debug>::fmt": "drives prepare_next_node_printing",
@@ -27,7 +25,10 @@ def main(tier):
     run.rule = ("obligation = (case, exit) -> every changed parent edge keeps the forest acyclic; plus call-graph and loop obligations; "
                 "non-trivial = distinct (entry, shape) that re-parents a node")
     profiles = ["dev"] if tier == "quick" else ["dev", "rel"]
-    data = e2props.load(run, profiles, ENTRIES)
+    data = e2props.load(run, profiles, ENTRIES + ["iters"])
+    interpreted = set(run.extra.get("functions_interpreted", []))
+    e2_undecided = any(rec.get("exit") == "undecided" for recs in data.values() for rec in recs)
+    data = {k: v for k, v in data.items() if k[1] != "iters"}
     for (prof, entry), recs in sorted(data.items()):
         e2props.undecided(run, recs, prof)
         for rec in recs:
@@ -56,8 +57,12 @@ def main(tier):
         for (a, b) in idx.cfg(k).back_edges():
             loops.append((k, b))
     for (k, head) in loops:
-        run.ob("termination", "loop in %s is a known, bounded loop" % k, k in KNOWN_LOOPS, key="termination|unaccounted loop in " + k,
-               detail=KNOWN_LOOPS.get(k, "a new loop: its termination argument is missing"), loc=prog.loc(prog.fns[k]["span"]), nontrivial=("loop", k))
+        # a loop is accounted for when E2 interpreted its function in every explored case with a decided exit (executed to a decided exit, or replaced by a
+        # verified chain-walk summary whose chain is finite by J3; remove_subtree: generic-iteration analysis, C04), or when it belongs to the pretty printer
+        by_e2 = k in interpreted and not e2_undecided
+        why = "interpreted by E2 with decided exits in every case" if by_e2 else KNOWN_LOOPS.get(k, "a loop E2 did not reach and that is not listed: its termination argument is missing")
+        run.ob("termination", "loop in %s terminates (%s)" % (k, why), by_e2 or k in KNOWN_LOOPS, key="termination|unaccounted loop in " + k,
+               detail=why, loc=prog.loc(prog.fns[k]["span"]), nontrivial=("loop", k))
     run.floor("natural loops found in reachable code", len(loops), 8)
     adaptors = sorted({n for k in reach for (_, _, n) in idx.calls[k] if n.startswith("core::iter::traits::iterator::Iterator::")})
     run.extra["iterator_adaptors_used"] = adaptors
